@@ -28,7 +28,7 @@ def run(check):
     # apply_params rebuilds through UpgradedSignature.replace(parameters=...): the list handed over -- also an empty one -- is what
     # the result has (shared with C14.R3)
     from ..rules_classes import rule_replace_and_slots
-    check.run_rule('C09.R2b', lambda c: rule_replace_and_slots(c, 'C09.R2', classes=['UpgradedSignature']))
+    check.run_rule('C09.R2b', lambda c: rule_replace_and_slots(c, 'C09.R2', classes=['UpgradedSignature'], only_base_overrides=True))
     check.run_rule('C09.R3', lambda c: rm.rule_tables(
         c, M.merge(), 'C09.R3', ('leftwins',), 'name and kind come from the left operand',
         witness="merge(s('a, /'), s('b, /')) must be (a, /)"))
